@@ -404,6 +404,7 @@ func c02Par(a vh.Args, o *vh.Oracle, r *vh.Result, c *c02Case, attempts int) err
 }
 
 func runC02(a vh.Args, o *vh.Oracle, r *vh.Result) error {
+	c02BaseGoroutines = runtime.NumGoroutine()
 	r.Rule = "seq case = (blob, min/avg/max, read fragmentation): Chunker.Next vs model and rule; par case = (blob, triple, n in 1..16, schedule seed): IndexFromFile under randomized-priority schedules vs single-stream; non-trivial = more than 2 chunks (and n>1 for par); distinct by parameters+blob prefix(+schedule)"
 	if a.Replay != "" {
 		var c c02Case
